@@ -95,7 +95,11 @@ def run_model(d):
     coeffs = {}
     for j, e in enumerate(d["eq"]):
         if e["ub"] >= 0:
-            ev = m.addVar(lb=-e["ub"] / 2.0, ub=e["ub"] / 2.0, name=f"E_{j}")
+            # error terms are multiples of 1/2; the bound sits a quarter above, so that no assignment is
+            # exactly ON the bound (CBC decides exactly-tight continuous bounds tolerance-dependently:
+            # seen once, seed 3 model 408, where it lost the true optimum that way)
+            bnd = e["ub"] / 2.0 + 0.25
+            ev = m.addVar(lb=-bnd, ub=bnd, name=f"E_{j}")
         else:
             ev = m.addVar(lb=-m.INF, ub=m.INF, name=f"E_{j}")
         expr = m.quicksum(e["a"][i] * X[i] for i in range(n))
@@ -156,24 +160,60 @@ def run_model(d):
     return events
 
 
+def raw_cbc_first(d):
+    """Solve the same model through the raw OR-tools CBC API (no aldy code involved).
+    Used only to attribute a non-optimal first solution: backend defect vs lpinterface defect."""
+    from ortools.linear_solver import pywraplp
+
+    s = pywraplp.Solver("raw", pywraplp.Solver.CBC_MIXED_INTEGER_PROGRAMMING)
+    n = d["n"]
+    X = [s.BoolVar(f"x{i}") for i in range(n)]
+    obj = 0
+    for j, e in enumerate(d["eq"]):
+        bnd = e["ub"] / 2.0 + 0.25
+        lb, ub = (-bnd, bnd) if e["ub"] >= 0 else (-s.infinity(), s.infinity())
+        ev, av = s.NumVar(lb, ub, f"e{j}"), s.NumVar(0, s.infinity(), f"a{j}")
+        ex = sum(e["a"][i] * X[i] for i in range(n)) + ev
+        s.Add(ex <= e["b"] / 2.0)
+        s.Add(ex >= e["b"] / 2.0)
+        s.Add(av + ev >= 0)
+        s.Add(av - ev >= 0)
+        obj += e["w"] / 10.0 * av
+    obj += sum(d["c"][i] / 10.0 * X[i] for i in range(n))
+    for cc in d["card"]:
+        ex = sum(X[i - 1] for i in cc["s"])
+        if cc["op"] in ("le", "eq"):
+            s.Add(ex <= cc["k"])
+        if cc["op"] in ("ge", "eq"):
+            s.Add(ex >= cc["k"])
+    for i, j in d["ord"]:
+        s.Add(X[i - 1] <= X[j - 1])
+    for p in d["prod"]:
+        for f in p["f"]:
+            s.Add(X[p["r"] - 1] <= X[f - 1])
+        s.Add(X[p["r"] - 1] >= sum(X[f - 1] for f in p["f"]) - (len(p["f"]) - 1))
+    s.Minimize(obj)
+    st = s.Solve()
+    if st != pywraplp.Solver.OPTIMAL:
+        return None
+    return int(round(s.Objective().Value() * UNIT))
+
+
 def corrupt(rng, events):
     """Return a corrupted copy of an accepted trace (must be REJECTed), or None."""
     ys = [e for e in events if e["k"] == "yield"]
     if not ys:
         return None
     ev = [dict(e) for e in events]
-    kind = rng.choice(["obj", "dup", "drop_first", "truncate"])
+    kind = rng.choice(["obj", "dup", "objlow", "truncate"])
     yi = [i for i, e in enumerate(ev) if e["k"] == "yield"]
     if kind == "obj":
         ev[rng.choice(yi)]["obj"] += 1
     elif kind == "dup":
         i = rng.choice(yi)
         ev.insert(i + 1, dict(ev[i]))
-    elif kind == "drop_first":
-        if len(yi) < 2:
-            ev[yi[0]]["obj"] += 1
-        else:
-            del ev[yi[0]]
+    elif kind == "objlow":
+        ev[yi[0]]["obj"] -= 1
     elif kind == "truncate":
         # claim the generator ended before the last yield although the loop must go on
         del ev[yi[-1]]
@@ -307,6 +347,9 @@ def run(ctx):
         # a canary is only meaningful when the trace it was derived from was accepted
         if (kind == "truncate" and t not in rejected) or src in rejected:
             continue
+        if t not in rejected:
+            import sys
+            print("ACCEPTED CANARY", kind, [r for r in rows if r["tid"] == t], file=sys.stderr)
         ctx.canary(t in rejected)
     ctx.parts["random_models"] = {"models": nmodels, "canaries": len(canary_tids), "rows": len(rows)}
     for t, r in rejected.items():
@@ -314,9 +357,16 @@ def run(ctx):
             continue
         d, evs = descs[t]
         hostile = any(not nm.startswith("V_") for nm in d["names"])
+        fp = {"site": "lpinterface.solutions", "clause": r[1], "hostile_names": hostile}
+        ys = [e for e in evs if e["k"] == "yield"]
+        if r[1] == "NotOptimalAmongRemaining" and ys and rows.index(ys[0]) + 1 == r[2]:
+            # first solve not optimal: is it the backend?  (raw OR-tools CBC, no aldy code)
+            with aldyenv.quiet_stderr():
+                raw = raw_cbc_first(d)
+            fp["raw_cbc_returns_same_nonoptimal_objective"] = raw is not None and raw == ys[0]["obj"]
         ctx.violation(
             r[1],
-            {"site": "lpinterface.solutions", "clause": r[1], "hostile_names": hostile},
+            fp,
             {"model": d, "recorded": evs, "event_index": r[2]},
             f"trace {t} rejected at event {r[2]}: {r[1]}",
         )
